@@ -372,6 +372,21 @@ CLAIMS["C17"] = (
     "6/C17", TRUSTED + "; only strings produced by the printer are parsed (ill-formed input belongs to C18); literals "
     "are restricted to dyadic floating-point values so that the expected double is exact",
     "TLA+ printer as the definition of the syntax + TLC trace validation (parse vs direct construction)")
+CLAIMS["C14"] = (
+    "model_checking",
+    "TLC enumerates expressions in x, y (the pool of C15: arithmetic, every special-cased power in every embedding, 27 "
+    "functions, atan2, max/min, piecewise; nested one level; 3000 in the quick tier) in batches of 25 at two (three) "
+    "bindings; in a build of the library configured with LLVM 14 every expression is compiled by LLVMDoubleVisitor at "
+    "optimisation levels 0-3 with and without symbolic CSE, by LLVMFloatVisitor and LLVMLongDoubleVisitor, saved with "
+    "dumps and loaded into a fresh object, and all expressions of a batch as the outputs of one function (CSE across "
+    "outputs) on an object that is then initialised again with other settings; TLC validates every returned value "
+    "against the exact rational value where the specification has one (long division, module Dbl) and against the "
+    "library's own evaluation (bound to the specification by C12), that an expression is accepted at all settings or "
+    "at none, and that the reloaded function returns bit-identical values",
+    "6/C14", TRUSTED + "; LLVM 14 itself; single precision is compared to 2^-10 (absolute below 1) because "
+    "cancellation in one-level expressions is not bounded more tightly; inputs are two fixed dyadic points per batch",
+    "TLA+ exact value oracle + replay on the LLVM build + TLC trace validation")
+
 CLAIMS["C15"] = (
     "model_checking",
     "TLC enumerates expressions in x, y (the five arithmetic operators over rationals, floats, pi, E and the symbols; "
